@@ -150,28 +150,26 @@ Qed.
 
 (* -------------------------------------------------------- UNet encoder *)
 Section UNetEncoder.
-Variables (cin filters : Z) (rate : Q) (cpb k : Z) (stem down : nat).
-Hypothesis Hcpb : 2 <= cpb.
+(* ns / nd: number of convolutions in a stem / down block (both positive);
+   mids: whatever follows the bare pooling layer (the middle block, or nothing),
+   characterised by what it does to the pooled tensor *)
+Variables (cin filters : Z) (rate : Q) (ns nd : nat) (k : Z) (stem down : nat).
+Hypothesis Hns : (0 < ns)%nat.
+Hypothesis Hnd : (0 < nd)%nat.
 Let F (i : Z) : Z := fint filters rate i.
 Let n := (stem + down)%nat.
 
 Definition stem_item (b : nat) : enc_item :=
   {| ei_scb := true; ei_pool := negb (Nat.eqb b 0);
      ei_layers := simple_conv_block b (if Nat.eqb b 0 then cin else F (Z.of_nat b - 1))
-                    (negb (Nat.eqb b 0)) true (Z.to_nat cpb) (F (Z.of_nat b)) stem_kernel |}.
+                    (negb (Nat.eqb b 0)) true ns (F (Z.of_nat b)) stem_kernel |}.
 Definition down_item (b : nat) : enc_item :=
   let i := (b + stem)%nat in
   {| ei_scb := true; ei_pool := negb (Nat.eqb i 0);
      ei_layers := simple_conv_block i (if Nat.eqb i 0 then cin else F (Z.of_nat i - 1))
-                    (negb (Nat.eqb i 0)) true (Z.to_nat (cpb - 1)) (F (Z.of_nat i)) k |}.
+                    (negb (Nat.eqb i 0)) true nd (F (Z.of_nat i)) k |}.
 Definition lvl (i : nat) : enc_item := if Nat.ltb i stem then stem_item i else down_item (i - stem).
 Definition bare_item : enc_item := {| ei_scb := false; ei_pool := false; ei_layers := [LPool n] |}.
-Definition mid_items : list enc_item :=
-  [{| ei_scb := true; ei_pool := false;
-      ei_layers := simple_conv_block (n + 1) (F (Z.of_nat n - 1)) false false (Z.to_nat (cpb - 1)) (F (Z.of_nat n)) k |};
-   {| ei_scb := true; ei_pool := false;
-      ei_layers := simple_conv_block (n + 2) (F (Z.of_nat n)) false false 1 (F (Z.of_nat n)) k |}].
-
 Lemma levels_eq :
   map stem_item (seq 0 stem) ++ map down_item (seq 0 down) = map lvl (seq 0 n).
 Proof.
@@ -182,20 +180,6 @@ Proof.
     apply map_ext. intros i. unfold lvl.
     destruct (Nat.ltb_spec (i + stem) stem); [lia |].
     f_equal. lia.
-Qed.
-
-Lemma encoder_stack_eq : (0 < n)%nat ->
-  encoder_stack cin filters rate stem down cpb k true
-  = Some (map lvl (seq 0 n) ++ [bare_item] ++ mid_items).
-Proof.
-  intros Hn. rewrite <- levels_eq. unfold encoder_stack. fold F.
-  change (stem + down)%nat with n.
-  destruct n as [|n1] eqn:En; [lia|].
-  assert (E1 : (1 <? cpb) = true) by (apply Z.ltb_lt; lia). rewrite E1.
-  rewrite <- !app_assoc.
-  unfold bare_item, mid_items, stem_item, down_item, F. rewrite ?En.
-  replace (Z.of_nat (S n1) - 1) with (Z.of_nat n1) by lia.
-  reflexivity.
 Qed.
 
 (* a level block (index >= 1): pool, then at least one convolution *)
@@ -216,10 +200,10 @@ Lemma lvl0_run st h w :
 Proof.
   unfold lvl. destruct (Nat.ltb_spec 0 stem).
   - unfold stem_item. cbn [ei_layers Nat.eqb negb]. rewrite scb_plain_run.
-    destruct (Nat.eqb_spec (Z.to_nat cpb) 0); [lia | reflexivity].
+    destruct (Nat.eqb_spec ns 0); [lia | reflexivity].
   - unfold down_item. cbn [ei_layers]. replace (0 - stem + stem)%nat with 0%nat by lia.
     cbn [Nat.eqb negb]. rewrite scb_plain_run.
-    destruct (Nat.eqb_spec (Z.to_nat (cpb - 1)) 0); [lia | reflexivity].
+    destruct (Nat.eqb_spec nd 0); [lia | reflexivity].
 Qed.
 
 Lemma lvl_flags i : ei_scb (lvl i) = true /\ ei_pool (lvl i) = negb (Nat.eqb i 0).
@@ -304,19 +288,24 @@ Proof.
   rewrite E. apply IH; auto.
 Qed.
 
+Variables (mids : list enc_item) (xout : Z).
+Hypothesis Hmids_flags : Forall (fun it => ei_scb it && ei_pool it = false) mids.
+Hypothesis Hmids_run : forall i keys st h w feats,
+  (forall j, (i <= j)%nat -> memn j keys = false) ->
+  enc_forward mids i keys st (fint filters rate (Z.of_nat (stem + down) - 1), h, w) feats = (Some ((xout, h, w), feats), st).
+
 Lemma keys_eq : (0 < n)%nat ->
-  inter_feats (map lvl (seq 0 n) ++ [bare_item] ++ mid_items) 0 2 [] = seq 0 n.
+  inter_feats (map lvl (seq 0 n) ++ [bare_item] ++ mids) 0 2 [] = seq 0 n.
 Proof.
   intros Hn. destruct n as [|n1] eqn:En; [lia|].
   cbn [seq map app inter_feats].
   destruct (lvl_flags 0) as [E1 E2]. rewrite E1, E2. cbn [Nat.eqb negb andb existsb].
-  destruct (inter_feats_levels n1 1 ([bare_item] ++ mid_items) 2 [2]) as [cs' [vals' [Hin E]]]; try lia.
+  destruct (inter_feats_levels n1 1 ([bare_item] ++ mids) 2 [2]) as [cs' [vals' [Hin E]]]; try lia.
   { left; reflexivity. }
   { constructor; [lia | constructor]. }
   cbn [app] in E. cbn [app]. rewrite E.
-  rewrite inter_feats_skip; auto.
-  - rewrite app_nil_r. reflexivity.
-  - repeat constructor.
+  rewrite inter_feats_skip; [| constructor; [reflexivity | exact Hmids_flags] | exact Hin].
+  rewrite app_nil_r. reflexivity.
 Qed.
 
 Lemma memn_seq i m : memn i (seq 0 m) = Nat.ltb i m.
@@ -328,7 +317,7 @@ Proof.
 Qed.
 
 Lemma count_pools_eq : (0 < n)%nat ->
-  count_pools (map lvl (seq 0 n) ++ [bare_item] ++ mid_items) = (n - 1)%nat.
+  count_pools (map lvl (seq 0 n) ++ [bare_item] ++ mids) = (n - 1)%nat.
 Proof.
   intros Hn. unfold count_pools. rewrite filter_app, app_length.
   destruct n as [|n1] eqn:En; [lia|].
@@ -341,22 +330,26 @@ Proof.
     destruct (Nat.eqb_spec a 0). { specialize (Hl a (or_introl eq_refl)). lia. }
     cbn [negb andb length]. f_equal. apply IH. intros; apply Hl; right; auto. }
   rewrite Hf by (intros i Hi; apply in_seq in Hi; lia).
-  rewrite seq_length. cbn. lia.
+  rewrite seq_length.
+  assert (Hm : filter (fun it => ei_scb it && ei_pool it) mids = []).
+  { clear - Hmids_flags. induction mids as [|it l IH]. reflexivity.
+    inversion Hmids_flags as [|? ? Hit Hl]; subst. cbn [filter]. rewrite Hit. exact (IH Hl). }
+  cbn [app filter bare_item ei_scb ei_pool andb]. rewrite Hm. cbn. lia.
 Qed.
 
 (* the whole encoder on an input whose sides are multiples of 2^n: the bottom
    tensor and the skip features, whatever the state of the pooling layers *)
 Theorem unet_encoder_forward st h w : (0 < n)%nat -> 0 < h -> 0 < w ->
   exists st' feats,
-    enc_forward (map lvl (seq 0 n) ++ [bare_item] ++ mid_items) 0 (seq 0 n) st
+    enc_forward (map lvl (seq 0 n) ++ [bare_item] ++ mids) 0 (seq 0 n) st
                 (cin, h * pow2 n, w * pow2 n) []
-    = (Some ((F (Z.of_nat n), h, w), feats), st') /\ forall j, (j < n)%nat ->
+    = (Some ((xout, h, w), feats), st') /\ forall j, (j < n)%nat ->
       nth_error feats j = Some (F (Z.of_nat n - 1 - Z.of_nat j), h * pow2 (S j), w * pow2 (S j)).
 Proof.
   intros Hn Hh Hw. destruct n as [|n1] eqn:En; [lia|].
   cbn [seq map app enc_forward]. rewrite lvl0_run.
   replace (memn 0 (0%nat :: seq 1 n1)) with true by reflexivity.
-  destruct (enc_levels n1 1 (bare_item :: mid_items) (seq 0 (S n1)) st (2 * h) (2 * w)
+  destruct (enc_levels n1 1 (bare_item :: mids) (seq 0 (S n1)) st (2 * h) (2 * w)
                        [(F 0, h * pow2 (S n1), w * pow2 (S n1))]) as [st1 E]; try lia.
   { intros i Hi. rewrite memn_seq. apply Nat.ltb_lt. lia. }
   cbn [pow2] in *.
@@ -371,15 +364,11 @@ Proof.
     cbn [enc_forward bare_item ei_layers run_layers run_layer].
     rewrite !pool_side_even by lia.
     rewrite memn_seq. destruct (Nat.ltb_spec (1 + n1) (S n1)); [lia|].
-    unfold mid_items. cbn [enc_forward ei_layers]. fold n. rewrite En.
-    replace (Z.of_nat 1 + Z.of_nat n1 - 1) with (Z.of_nat (S n1) - 1) by lia.
-    rewrite scb_plain_run.
-    destruct (Nat.eqb_spec (Z.to_nat (cpb - 1)) 0); [lia|].
-    rewrite memn_seq. destruct (Nat.ltb_spec (S (1 + n1)) (S n1)); [lia|].
-    rewrite scb_plain_run. cbn [Nat.eqb].
-    rewrite memn_seq. destruct (Nat.ltb_spec (S (S (1 + n1))) (S n1)); [lia|].
-    reflexivity.
-  - intros j Hj. destruct (Nat.ltb_spec (S (1 + n1)) (S n1)); [lia|].
+    assert (En' : (stem + down)%nat = S n1) by exact En.
+    unfold F. replace (Z.of_nat 1 + Z.of_nat n1 - 1) with (Z.of_nat (stem + down) - 1) by lia.
+    rewrite Hmids_run. reflexivity.
+    intros j Hj. rewrite memn_seq. apply Nat.ltb_ge. lia.
+  - intros j Hj.
     destruct (Nat.eq_dec j n1) as [->|Hne].
     + rewrite nth_error_app2; unfold lvl_feats; rewrite map_length, seq_length; [|lia].
       rewrite Nat.sub_diag. cbn [nth_error].
@@ -393,6 +382,68 @@ Proof.
 Qed.
 
 End UNetEncoder.
+
+(* what Encoder.__init__ appends after the bare pooling layer *)
+Definition mid_items (f18 : bool) (filters : Z) (rate : Q) (cpb k : Z) (stem down : nat) (middle : bool)
+  : list enc_item :=
+  let n := (stem + down)%nat in
+  let after := fint filters rate (Z.of_nat n - 1) in
+  let fn := fint filters rate (Z.of_nat n) in
+  if middle then
+    (if 1 <? cpb then
+       [{| ei_scb := true; ei_pool := false;
+           ei_layers := simple_conv_block (n + 1) after false false (Z.to_nat (cpb - 1)) fn k |}]
+     else []) ++
+    [{| ei_scb := true; ei_pool := false;
+        ei_layers := simple_conv_block (n + 2) (if f18 && negb (1 <? cpb) then after else fn)
+                       false false 1 fn k |}]
+  else [].
+
+(* the encoder's output channels *)
+Definition enc_xout (filters : Z) (rate : Q) (n : nat) (middle : bool) : Z :=
+  fint filters rate (if middle then Z.of_nat n else Z.of_nat n - 1).
+
+(* convs_per_block is usable: >= 2, or 1 with the fx18 repair *)
+Definition cpb_ok (f18 : bool) (cpb : Z) : Prop := 2 <= cpb \/ (cpb = 1 /\ f18 = true).
+
+Lemma cpb_ok_counts f18 cpb : cpb_ok f18 cpb -> (0 < Z.to_nat cpb)%nat /\ (0 < down_convs f18 cpb)%nat.
+Proof. unfold cpb_ok, down_convs. intros [H | [-> ->]]. destruct f18; lia. cbn. lia. Qed.
+
+Lemma encoder_stack_eq f18 cin filters rate cpb k stem down middle : cpb_ok f18 cpb -> (0 < stem + down)%nat ->
+  encoder_stack f18 cin filters rate stem down cpb k middle
+  = Some (map (lvl cin filters rate (Z.to_nat cpb) (down_convs f18 cpb) k stem) (seq 0 (stem + down)) ++
+          [bare_item stem down] ++ mid_items f18 filters rate cpb k stem down middle).
+Proof.
+  intros Hc Hn. destruct (cpb_ok_counts f18 cpb Hc) as [C1 C2].
+  rewrite <- levels_eq by assumption. unfold encoder_stack.
+  destruct (stem + down)%nat as [|n1] eqn:En; [lia|].
+  rewrite <- !app_assoc.
+  unfold bare_item, mid_items, stem_item, down_item. rewrite ?En.
+  replace (Z.of_nat (S n1) - 1) with (Z.of_nat n1) by lia.
+  reflexivity.
+Qed.
+
+Lemma mids_flags f18 filters rate cpb k stem down middle :
+  Forall (fun it => ei_scb it && ei_pool it = false) (mid_items f18 filters rate cpb k stem down middle).
+Proof. unfold mid_items. destruct middle; [destruct (1 <? cpb)|]; repeat constructor. Qed.
+
+Lemma mids_run f18 filters rate cpb k stem down middle : cpb_ok f18 cpb ->
+  forall i keys st h w feats, (forall j, (i <= j)%nat -> memn j keys = false) ->
+  enc_forward (mid_items f18 filters rate cpb k stem down middle) i keys st
+              (fint filters rate (Z.of_nat (stem + down) - 1), h, w) feats
+  = (Some ((enc_xout filters rate (stem + down) middle, h, w), feats), st).
+Proof.
+  intros Hc i keys st h w feats Hk. unfold mid_items, enc_xout.
+  destruct middle; [|reflexivity].
+  destruct (Z.ltb_spec 1 cpb) as [H1|H1].
+  - cbn [app enc_forward ei_layers]. rewrite scb_plain_run.
+    destruct (Nat.eqb_spec (Z.to_nat (cpb - 1)) 0); [lia|].
+    rewrite Hk by lia. rewrite andb_false_r. rewrite scb_plain_run. cbn [Nat.eqb].
+    rewrite Hk by lia. reflexivity.
+  - destruct Hc as [Hc | [-> ->]]; [lia|].
+    cbn [app enc_forward ei_layers andb negb]. rewrite scb_plain_run. cbn [Nat.eqb].
+    rewrite Hk by lia. reflexivity.
+Qed.
 
 (* ------------------------------------------------------------- decoder *)
 Lemma trunc_inject_Z z : trunc (inject_Z z) = z.
@@ -526,43 +577,64 @@ Qed.
 Definition unet_valid (c : unet_cfg) (s d b : nat) : Prop :=
   u_max_stride c = pow2 (s + d) /\ u_output_stride c = pow2 b /\ (b < s + d)%nat /\
   ((s = 0%nat /\ u_stem_stride c = None) \/ u_stem_stride c = Some (pow2 s)).
+(* ... the backbone output stride may equal max_stride (no decoder block at all) *)
+Definition unet_valid_le (c : unet_cfg) (s d b : nat) : Prop :=
+  u_max_stride c = pow2 (s + d) /\ u_output_stride c = pow2 b /\ (b <= s + d)%nat /\ (0 < s + d)%nat /\
+  ((s = 0%nat /\ u_stem_stride c = None) \/ u_stem_stride c = Some (pow2 s)).
+Lemma unet_valid_weaken c s d b : unet_valid c s d b -> unet_valid_le c s d b.
+Proof. intros (A & B & C & D). repeat split; auto; lia. Qed.
 
-Definition unet_decoder (c : unet_cfg) (n b : nat) : decoder :=
-  let F := fint (u_filters c) (u_rate c) in
-  {| d_stack := map (dec_for_block (F (Z.of_nat n)) (u_filters c) (u_rate c) (Z.of_nat n)
+(* x_in_shape of the decoder (UNet.__init__) *)
+Definition unet_xin (fx : fixes) (c : unet_cfg) (n : nat) : Z :=
+  fint (u_filters c) (u_rate c) (if fx17 fx && negb (u_middle c) then Z.of_nat n - 1 else Z.of_nat n).
+
+Definition unet_decoder_fx (fx : fixes) (c : unet_cfg) (n b : nat) : decoder :=
+  {| d_stack := map (dec_for_block (unet_xin fx c n) (u_filters c) (u_rate c) (Z.of_nat n)
                                    (u_kernel c) (u_up_interp c)) (seq 0 (n - b));
      d_strides := map (fun j => pow2 (n - 1 - j)) (seq 0 (n - b));
      d_residuals := (n - b)%nat;
-     d_x_in := F (Z.of_nat n) |}.
+     d_x_in := unet_xin fx c n;
+     d_cs0 := pow2 (n - 1) |}.
 
-Definition unet_backbone (c : unet_cfg) (s d b : nat) : backbone :=
+Definition unet_backbone_fx (fx : fixes) (c : unet_cfg) (s d b : nat) : backbone :=
   {| bb_kind := 0;
-     bb_enc := map (lvl (u_in_channels c) (u_filters c) (u_rate c) (u_convs_per_block c) (u_kernel c) s)
+     bb_enc := map (lvl (u_in_channels c) (u_filters c) (u_rate c) (Z.to_nat (u_convs_per_block c))
+                        (down_convs (fx18 fx) (u_convs_per_block c)) (u_kernel c) s)
                    (seq 0 (s + d)) ++ [bare_item s d] ++
-               mid_items (u_filters c) (u_rate c) (u_convs_per_block c) (u_kernel c) s d;
+               mid_items (fx18 fx) (u_filters c) (u_rate c) (u_convs_per_block c) (u_kernel c) s d (u_middle c);
      bb_keys := seq 0 (s + d);
-     bb_dec := unet_decoder c (s + d) b;
+     bb_dec := unet_decoder_fx fx c (s + d) b;
      bb_rate := u_rate c;
      bb_output_stride := u_output_stride c |}.
 
-Lemma build_unet_spec c s d b :
-  unet_valid c s d b -> 2 <= u_convs_per_block c -> u_middle c = true ->
-  build_unet c = Some (unet_backbone c s d b).
+Lemma unet_xin_nofix c n : unet_xin nofix c n = fint (u_filters c) (u_rate c) (Z.of_nat n).
+Proof. reflexivity. Qed.
+
+Definition unet_decoder : unet_cfg -> nat -> nat -> decoder := unet_decoder_fx nofix.
+Definition unet_backbone : unet_cfg -> nat -> nat -> nat -> backbone := unet_backbone_fx nofix.
+
+(* construction succeeds for every usable convs_per_block, with or without the middle block *)
+Lemma build_unet_spec_fx fx c s d b :
+  unet_valid_le c s d b -> cpb_ok (fx18 fx) (u_convs_per_block c) ->
+  build_unet_fx fx c = Some (unet_backbone_fx fx c s d b).
 Proof.
-  intros (Hms & Hos & Hb & Hstem) Hcpb Hmid.
+  intros (Hms & Hos & Hb & Hn & Hstem) Hcpb.
   assert (Es : unet_stem_blocks c = Z.of_nat s).
   { unfold unet_stem_blocks. destruct Hstem as [[-> ->] | ->]. reflexivity.
     unfold log2i. apply pow2_log2. }
   assert (Ed : unet_down_blocks c = Z.of_nat d).
   { unfold unet_down_blocks, log2i. rewrite Es, Hms, pow2_log2. lia. }
+  assert (Hle : pow2 b <= pow2 (s + d)).
+  { destruct (Nat.eq_dec b (s + d)) as [->|]; [lia | apply Z.lt_le_incl, pow2_lt; lia]. }
   assert (Eu : unet_up_blocks c = (s + d - b)%nat).
   { unfold unet_up_blocks, log2i. rewrite Hms, Hos.
-    assert (pow2 b < pow2 (s + d)) by (apply pow2_lt; lia).
     destruct (Z.leb_spec (pow2 b) (pow2 (s + d))); [|lia].
     rewrite pow2_div by lia. rewrite pow2_log2. lia. }
-  unfold build_unet. rewrite Es, Ed, Eu, !Nat2Z.id, Hmid.
+  unfold build_unet_fx. rewrite Es, Ed, Eu, !Nat2Z.id.
   rewrite encoder_stack_eq by (auto; lia).
-  rewrite count_pools_eq by lia. rewrite keys_eq by lia.
+  destruct (cpb_ok_counts _ _ Hcpb) as [C1 C2].
+  rewrite (count_pools_eq _ _ _ _ _ _ _ _ C1 C2 _ _ (mids_flags _ _ _ _ _ _ _ _) (mids_run _ _ _ _ _ _ _ _ Hcpb)) by lia.
+  rewrite (keys_eq _ _ _ _ _ _ _ _ C1 C2 _ _ (mids_flags _ _ _ _ _ _ _ _) (mids_run _ _ _ _ _ _ _ _ Hcpb)) by lia.
   rewrite <- pow2_eq. rewrite (Nat.add_comm d s).
   unfold build_decoder.
   set (n := (s + d)%nat) in *.
@@ -574,18 +646,52 @@ Proof.
   reflexivity.
 Qed.
 
-(* the backbone's outputs: decoder block t is at stride 2^(n-1-t) *)
-Lemma unet_backbone_forward c s d b st h w :
-  2 <= u_convs_per_block c -> (b < s + d)%nat -> 0 < h -> 0 < w ->
-  exists st',
-    backbone_forward (unet_backbone c s d b) st (u_in_channels c, h * pow2 (s + d), w * pow2 (s + d))
-    = (Some (map (dec_out (u_filters c) (u_rate c) (Z.of_nat (s + d)) h w) (seq 0 (s + d - b))), st').
+Lemma build_unet_spec c s d b :
+  unet_valid c s d b -> 2 <= u_convs_per_block c -> u_middle c = true ->
+  build_unet c = Some (unet_backbone c s d b).
 Proof.
-  intros Hcpb Hb Hh Hw. unfold backbone_forward, unet_backbone. cbn [bb_kind bb_enc bb_keys bb_dec].
-  destruct (unet_encoder_forward (u_in_channels c) (u_filters c) (u_rate c) (u_convs_per_block c)
-              (u_kernel c) s d Hcpb st h w) as (st' & feats & E & Hf); try lia.
-  rewrite E. exists st'. unfold unet_decoder. cbn [d_stack d_residuals].
-  pose proof (dec_for_forward (fint (u_filters c) (u_rate c) (Z.of_nat (s + d))) (u_filters c) (u_rate c)
+  intros Hv Hcpb _. apply build_unet_spec_fx. apply unet_valid_weaken; auto. left; auto.
+Qed.
+
+(* the decoder is sized for what the encoder delivers *)
+Definition feeds (fx : fixes) (c : unet_cfg) : Prop := u_middle c = true \/ fx17 fx = true.
+
+Lemma feeds_xin fx c n : feeds fx c -> enc_xout (u_filters c) (u_rate c) n (u_middle c) = unet_xin fx c n.
+Proof.
+  unfold feeds, enc_xout, unet_xin. intros [-> | ->]. rewrite andb_false_r. reflexivity.
+  destruct (u_middle c); reflexivity.
+Qed.
+
+Lemma unet_encoder_fx fx c s d st h w :
+  cpb_ok (fx18 fx) (u_convs_per_block c) -> feeds fx c -> (0 < s + d)%nat -> 0 < h -> 0 < w ->
+  exists st' feats,
+    enc_forward (bb_enc (unet_backbone_fx fx c s d 0)) 0 (seq 0 (s + d)) st
+                (u_in_channels c, h * pow2 (s + d), w * pow2 (s + d)) []
+    = (Some ((unet_xin fx c (s + d), h, w), feats), st') /\ forall j, (j < s + d)%nat ->
+      nth_error feats j = Some (fint (u_filters c) (u_rate c) (Z.of_nat (s + d) - 1 - Z.of_nat j),
+                                h * pow2 (S j), w * pow2 (S j)).
+Proof.
+  intros Hcpb Hfeed Hn Hh Hw. destruct (cpb_ok_counts _ _ Hcpb) as [C1 C2].
+  rewrite <- (feeds_xin fx c (s + d) Hfeed). cbn [unet_backbone_fx bb_enc].
+  apply (unet_encoder_forward (u_in_channels c) (u_filters c) (u_rate c) _ _ (u_kernel c) s d C1 C2
+           _ _ (mids_run _ _ _ _ _ _ _ _ Hcpb)); assumption.
+Qed.
+
+(* the backbone's outputs: decoder block t is at stride 2^(n-1-t) *)
+Lemma unet_backbone_forward_fx fx c s d b st h w :
+  cpb_ok (fx18 fx) (u_convs_per_block c) -> feeds fx c -> (0 < s + d)%nat -> (b <= s + d)%nat -> 0 < h -> 0 < w ->
+  (exists st',
+    backbone_forward (unet_backbone_fx fx c s d b) st (u_in_channels c, h * pow2 (s + d), w * pow2 (s + d))
+    = (Some (map (dec_out (u_filters c) (u_rate c) (Z.of_nat (s + d)) h w) (seq 0 (s + d - b))), st')) /\
+  backbone_bottom (unet_backbone_fx fx c s d b) st (u_in_channels c, h * pow2 (s + d), w * pow2 (s + d))
+  = Some (unet_xin fx c (s + d), h, w).
+Proof.
+  intros Hcpb Hfeed Hn Hb Hh Hw. unfold backbone_forward, backbone_bottom, unet_backbone_fx.
+  cbn [bb_kind bb_enc bb_keys bb_dec].
+  destruct (unet_encoder_fx fx c s d st h w Hcpb Hfeed Hn Hh Hw) as (st' & feats & E & Hf).
+  cbn [unet_backbone_fx bb_enc] in E. rewrite E. split; [|reflexivity].
+  exists st'. unfold unet_decoder_fx. cbn [d_stack d_residuals].
+  pose proof (dec_for_forward (unet_xin fx c (s + d)) (u_filters c) (u_rate c)
                 (Z.of_nat (s + d)) (u_kernel c) (u_up_interp c) (s + d - b) 0 (s + d - b) [] feats st' h w) as D.
   cbn [Nat.add dec_forward pow2] in D. rewrite !app_nil_r, !Z.mul_1_r in D.
   unfold dec_cin in D. cbn [Nat.eqb] in D.
@@ -593,13 +699,34 @@ Proof.
   intros t Ht. rewrite Hf by lia. reflexivity.
 Qed.
 
+Lemma unet_backbone_forward c s d b st h w :
+  2 <= u_convs_per_block c -> u_middle c = true -> (b < s + d)%nat -> 0 < h -> 0 < w ->
+  exists st',
+    backbone_forward (unet_backbone c s d b) st (u_in_channels c, h * pow2 (s + d), w * pow2 (s + d))
+    = (Some (map (dec_out (u_filters c) (u_rate c) (Z.of_nat (s + d)) h w) (seq 0 (s + d - b))), st').
+Proof.
+  intros Hcpb Hmid Hb Hh Hw.
+  apply (unet_backbone_forward_fx nofix c s d b st h w); auto; try lia. left; auto. left; auto.
+Qed.
+
 Definition unet_F (c : unet_cfg) (t : nat) : Z := fint (u_filters c) (u_rate c) (Z.of_nat t).
 
 (* heads: strides 2^t with b <= t < n *)
 Definition heads_ok (heads : list head) (b n : nat) : Prop :=
   Forall (fun hd => exists t, (b <= t < n)%nat /\ h_os hd = pow2 t) heads.
+(* ... or, with the fx41 repair, t = n: the encoder output itself *)
+Definition heads_ok_fx (f41 : bool) (heads : list head) (b n : nat) : Prop :=
+  Forall (fun hd => exists t, (b <= t)%nat /\ ((t < n)%nat \/ (t = n /\ f41 = true)) /\ h_os hd = pow2 t) heads.
+Lemma heads_ok_weaken f41 heads b n : heads_ok heads b n -> heads_ok_fx f41 heads b n.
+Proof.
+  unfold heads_ok, heads_ok_fx. intros H. eapply Forall_impl; [|exact H].
+  intros hd (t & Ht & E). exists t. repeat split; auto; lia.
+Qed.
 
 (* every head's conv is sized for the decoder block that serves it *)
+Definition heads_sized_fx (fixed : bool) (fx : fixes) (c : unet_cfg) (s d b : nat) (heads : list head) : Prop :=
+  forall hd t, In hd heads -> h_os hd = pow2 t -> (t < s + d)%nat ->
+    head_in_channels fixed (unet_backbone_fx fx c s d b) (u_output_stride c) hd = Some (unet_F c t).
 Definition heads_sized (fixed : bool) (c : unet_cfg) (s d b : nat) (heads : list head) : Prop :=
   forall hd t, In hd heads -> h_os hd = pow2 t ->
     head_in_channels fixed (unet_backbone c s d b) (u_output_stride c) hd = Some (unet_F c t).
@@ -613,6 +740,73 @@ Proof.
   rewrite I; try lia. f_equal; lia.
 Qed.
 
+Lemma at_top_unet f41 fx c s d b hd t : (0 < s + d)%nat -> h_os hd = pow2 t ->
+  at_top f41 (unet_backbone_fx fx c s d b) hd = f41 && Nat.eqb t (s + d).
+Proof.
+  intros Hn E. unfold at_top, encoder_stride. cbn [unet_backbone_fx bb_dec unet_decoder_fx d_cs0].
+  f_equal. rewrite E.
+  replace (2 * pow2 (s + d - 1)) with (pow2 (s + d))
+    by (replace (s + d)%nat with (S (s + d - 1)) at 1 by lia; reflexivity).
+  destruct (Nat.eqb_spec t (s + d)) as [->|Hne]. apply Z.eqb_refl.
+  apply Z.eqb_neq. intros Hp. apply pow2_inj in Hp. lia.
+Qed.
+
+Theorem unet_model_forward_fx fixed fx c s d b heads st h w :
+  unet_valid_le c s d b -> cpb_ok (fx18 fx) (u_convs_per_block c) -> feeds fx c ->
+  heads_ok_fx (fx41 fx) heads b (s + d) -> heads_sized_fx fixed fx c s d b heads -> 0 < h -> 0 < w ->
+  exists m, build_model_fx (fx41 fx) fixed (build_unet_fx fx c) heads = Some m /\
+    fst (model_forward m st (u_in_channels c, h * pow2 (s + d), w * pow2 (s + d)))
+    = Some (contracted heads (h * pow2 (s + d)) (w * pow2 (s + d))).
+Proof.
+  intros Hv Hcpb Hfeed Hheads Hsized Hh Hw. unfold heads_ok_fx in Hheads.
+  rewrite (build_unet_spec_fx fx c s d b) by assumption.
+  destruct Hv as (Hms & Hos & Hb & Hn & Hstem).
+  set (n := (s + d)%nat) in *.
+  unfold build_model_fx.
+  assert (Emin : Z.min (min_list (bb_output_stride (unet_backbone_fx fx c s d b)) (map h_os heads))
+                       (bb_output_stride (unet_backbone_fx fx c s d b)) = u_output_stride c).
+  { cbn [unet_backbone_fx bb_output_stride]. rewrite min_list_ge. lia.
+    apply Forall_map. eapply Forall_impl; [|exact Hheads].
+    intros hd (t & Ht & _ & E). cbn beta. rewrite E, Hos.
+    destruct (Nat.eq_dec b t) as [->|]. lia. assert (pow2 b < pow2 t) by (apply pow2_lt; lia). lia. }
+  rewrite Emin.
+  set (tof := fun hd : head => Z.to_nat (Z.log2 (h_os hd))).
+  assert (Etof : forall hd, In hd heads ->
+            exists t, (b <= t)%nat /\ ((t < n)%nat \/ (t = n /\ fx41 fx = true)) /\ h_os hd = pow2 t /\ tof hd = t).
+  { intros hd Hin. rewrite Forall_forall in Hheads. destruct (Hheads hd Hin) as (t & Ht & Ht2 & E).
+    exists t. repeat split; auto. unfold tof. rewrite E, pow2_log2. lia. }
+  set (chan := fun hd : head => if Nat.eqb (tof hd) n then unet_xin fx c n else unet_F c (tof hd)).
+  rewrite (all_some_map _ chan).
+  2:{ intros hd Hin. destruct (Etof hd Hin) as (t & Ht & Ht2 & E & Et). unfold head_in_channels_fx, chan.
+      rewrite (at_top_unet _ fx c s d b hd t Hn E), Et. fold n.
+      destruct Ht2 as [Hlt | [-> ->]].
+      - destruct (Nat.eqb_spec t n); [lia|]. rewrite andb_false_r. apply Hsized; auto.
+      - rewrite Nat.eqb_refl. reflexivity. }
+  eexists. split. reflexivity.
+  unfold model_forward. cbn [m_backbone m_heads m_head_layers m_f41].
+  destruct (unet_backbone_forward_fx fx c s d b st h w) as ((st' & E) & Ebot); try assumption.
+  fold n in E, Ebot. rewrite E. cbn [fst].
+  rewrite combine_map_r, map_map. cbn [fst snd].
+  rewrite combine_map_r, map_map. cbn [fst snd].
+  unfold contracted.
+  apply all_some_map.
+  intros hd Hin. destruct (Etof hd Hin) as (t & Ht & Ht2 & Eos & Et).
+  rewrite (at_top_unet _ fx c s d b hd t Hn Eos). fold n. unfold chan. rewrite Et, Eos.
+  destruct Ht2 as [Hlt | [-> ->]].
+  - destruct (Nat.eqb_spec t n); [lia|]. rewrite andb_false_r.
+    cbn [unet_backbone_fx bb_dec unet_decoder_fx d_strides]. fold n.
+    rewrite index_of_stride by lia.
+    rewrite nth_error_map, nth_error_seq by lia. cbn [option_map Nat.add].
+    unfold dec_out, make_head. cbn [run_layers run_layer].
+    replace (Z.of_nat n - 1 - Z.of_nat (n - 1 - t)) with (Z.of_nat t) by lia.
+    unfold unet_F. rewrite Z.eqb_refl. cbn [fst].
+    replace (S (n - 1 - t)) with (n - t)%nat by lia.
+    rewrite !mul_pow2_div by lia. reflexivity.
+  - rewrite Nat.eqb_refl. cbn [andb]. rewrite Ebot.
+    unfold make_head. cbn [run_layers run_layer]. rewrite Z.eqb_refl. cbn [fst].
+    rewrite !mul_pow2_div by lia. rewrite Nat.sub_diag. cbn [pow2]. rewrite !Z.mul_1_r. reflexivity.
+Qed.
+
 Theorem unet_model_forward fixed c s d b heads st h w :
   unet_valid c s d b -> 2 <= u_convs_per_block c -> u_middle c = true ->
   heads_ok heads b (s + d) -> heads_sized fixed c s d b heads -> 0 < h -> 0 < w ->
@@ -620,41 +814,13 @@ Theorem unet_model_forward fixed c s d b heads st h w :
     fst (model_forward m st (u_in_channels c, h * pow2 (s + d), w * pow2 (s + d)))
     = Some (contracted heads (h * pow2 (s + d)) (w * pow2 (s + d))).
 Proof.
-  intros Hv Hcpb Hmid Hheads Hsized Hh Hw. unfold heads_ok in Hheads.
-  rewrite (build_unet_spec c s d b) by assumption.
-  destruct Hv as (Hms & Hos & Hb & Hstem).
-  set (n := (s + d)%nat) in *.
-  unfold build_model.
-  assert (Emin : Z.min (min_list (bb_output_stride (unet_backbone c s d b)) (map h_os heads))
-                       (bb_output_stride (unet_backbone c s d b)) = u_output_stride c).
-  { cbn [unet_backbone bb_output_stride]. rewrite min_list_ge. lia.
-    apply Forall_map. eapply Forall_impl; [|exact Hheads].
-    intros hd (t & Ht & E). cbn beta. rewrite E, Hos.
-    destruct (Nat.eq_dec b t) as [->|]. lia. assert (pow2 b < pow2 t) by (apply pow2_lt; lia). lia. }
-  rewrite Emin.
-  set (tof := fun hd : head => Z.to_nat (Z.log2 (h_os hd))).
-  assert (Etof : forall hd, In hd heads -> exists t, (b <= t < n)%nat /\ h_os hd = pow2 t /\ tof hd = t).
-  { intros hd Hin. rewrite Forall_forall in Hheads. destruct (Hheads hd Hin) as (t & Ht & E).
-    exists t. repeat split; try lia; auto. unfold tof. rewrite E, pow2_log2. lia. }
-  rewrite (all_some_map _ (fun hd => unet_F c (tof hd))).
-  2:{ intros hd Hin. destruct (Etof hd Hin) as (t & Ht & E & Et). rewrite Et. apply Hsized; auto. }
-  eexists. split. reflexivity.
-  unfold model_forward. cbn [m_backbone m_heads m_head_layers].
-  destruct (unet_backbone_forward c s d b st h w) as (st' & E); try assumption.
-  fold n in E. rewrite E. cbn [fst].
-  rewrite combine_map_r, map_map. cbn [fst snd].
-  rewrite combine_map_r, map_map. cbn [fst snd].
-  unfold contracted.
-  apply all_some_map.
-  intros hd Hin. destruct (Etof hd Hin) as (t & Ht & Eos & Et). rewrite Et, Eos.
-  cbn [unet_backbone bb_dec unet_decoder d_strides]. fold n.
-  rewrite index_of_stride by lia.
-  rewrite nth_error_map, nth_error_seq by lia. cbn [option_map Nat.add].
-  unfold dec_out, make_head. cbn [run_layers run_layer].
-  replace (Z.of_nat n - 1 - Z.of_nat (n - 1 - t)) with (Z.of_nat t) by lia.
-  unfold unet_F. rewrite Z.eqb_refl. cbn [fst].
-  replace (S (n - 1 - t)) with (n - t)%nat by lia.
-  rewrite !mul_pow2_div by lia. reflexivity.
+  intros Hv Hcpb Hmid Hheads Hsized Hh Hw.
+  apply (unet_model_forward_fx fixed nofix c s d b heads st h w); auto.
+  - apply unet_valid_weaken; auto.
+  - left; auto.
+  - left; auto.
+  - apply heads_ok_weaken; auto.
+  - intros hd t Hin E _. apply Hsized; auto.
 Qed.
 
 (* ------------------------------------------- head in_channels arithmetic *)
@@ -732,7 +898,7 @@ Lemma heads_sized_fixed c s d b heads :
 Proof.
   intros Hb Hheads hd t Hin Eos. unfold heads_ok in Hheads. rewrite Forall_forall in Hheads.
   destruct (Hheads hd Hin) as (t' & Ht & E). rewrite E in Eos. apply pow2_inj in Eos. subst t'.
-  unfold head_in_channels. cbn [unet_backbone bb_dec unet_decoder d_strides d_stack]. rewrite E.
+  unfold head_in_channels. cbn [unet_backbone unet_backbone_fx unet_decoder_fx unet_xin fx17 nofix andb bb_dec unet_decoder d_strides d_stack]; rewrite ?unet_xin_nofix. rewrite E.
   rewrite index_of_stride by lia.
   rewrite nth_error_map, nth_error_seq by lia. cbn [option_map Nat.add].
   unfold dec_for_block, simple_upsampling_block. cbn [ub_out]. rewrite trunc_inject_Z.
@@ -749,14 +915,14 @@ Proof.
   destruct (Hheads hd Hin) as (t' & Ht & E). rewrite E in Eos. apply pow2_inj in Eos. subst t'.
   set (n := (s + d)%nat) in *.
   unfold head_in_channels, max_channels.
-  cbn [unet_backbone bb_dec unet_decoder d_strides d_stack d_x_in bb_rate].
+  cbn [unet_backbone unet_backbone_fx unet_decoder_fx unet_xin fx17 nofix andb bb_dec unet_decoder d_strides d_stack d_x_in bb_rate]; rewrite ?unet_xin_nofix.
   rewrite map_length, seq_length. fold n. rewrite Hr, Hf, E, Hos.
   rewrite fint_Gint by lia.
   assert (Ebase : round_half_even (inject_Z (Gint m p q (Z.of_nat n) (Z.of_nat n)) / (p # q) ^ Z.of_nat (n - b))
                   = Gint m p q (Z.of_nat n) (Z.of_nat b)).
   { apply round_half_even_int. rewrite Gint_div by lia.
     replace (Z.of_nat n - Z.of_nat (n - b)) with (Z.of_nat b) by lia. reflexivity. }
-  rewrite Ebase. unfold unet_F. rewrite Hr, Hf, fint_Gint by lia.
+  rewrite Ebase. unfold unet_F. rewrite ?Hr, ?Hf, fint_Gint by lia.
   destruct (Z.eqb_spec (pow2 t) (pow2 b)) as [Et|Et].
   - apply pow2_inj in Et. subst t. reflexivity.
   - rewrite (index_of_stride n b b), (index_of_stride n b t) by lia.
@@ -849,7 +1015,8 @@ Lemma build_decoder_gen (X Cc k : Z) (interp : bool) e b : (1 <= e <= 2)%nat -> 
                        map (gen_extra Cc k interp) (seq 3 (3 + e - b - 3));
             d_strides := map (fun j => pow2 (e + 2 - j)) (seq 0 (3 + e - b));
             d_residuals := 3;
-            d_x_in := X |}.
+            d_x_in := X;
+            d_cs0 := pow2 e * 2 ^ (Z.of_nat 3 - 1) |}.
 Proof.
   intros He Hb.
   assert (Hcases : ((e = 1 /\ b = 1) \/ (e = 1 /\ b = 0) \/ (e = 2 /\ b = 2) \/ (e = 2 /\ b = 1) \/ (e = 2 /\ b = 0))%nat) by lia.
@@ -874,7 +1041,8 @@ Definition tv_decoder (e L : nat) : decoder :=
   {| d_stack := map (dec_for_block (8 * C) C (2 # 1) 3 k interp) (seq 0 3) ++ map tv_extra (seq 3 (L - 3));
      d_strides := map (fun j => pow2 (e + 2 - j)) (seq 0 L);
      d_residuals := 3;
-     d_x_in := 8 * C |}.
+     d_x_in := 8 * C;
+     d_cs0 := pow2 e * 2 ^ (Z.of_nat 3 - 1) |}.
 
 Lemma tv_fint_0 : fint C (2 # 1) (3 - 1 - 2) = tv_ch 2.
 Proof.
@@ -1041,14 +1209,23 @@ Qed.
 
 (* the generic conclusion for a backbone that carries a tv_decoder and whose
    forward pass delivers tv_out *)
-Theorem tv_model_forward fixed bb heads st x h w st' :
+Lemma at_top_tv f41 bb hd t :
+  bb_dec bb = tv_decoder C4 k interp e L -> (t <= e + 2)%nat -> h_os hd = pow2 t -> at_top f41 bb hd = false.
+Proof.
+  intros Hd Ht E. unfold at_top, encoder_stride. rewrite Hd, E. cbn [tv_decoder d_cs0].
+  replace (2 * (pow2 e * 2 ^ (Z.of_nat 3 - 1))) with (pow2 (e + 3)).
+  - rewrite andb_false_iff. right. apply Z.eqb_neq. intros Hp. apply pow2_inj in Hp. lia.
+  - rewrite pow2_add. change (pow2 3) with 8. change (2 ^ (Z.of_nat 3 - 1)) with 4. lia.
+Qed.
+
+Theorem tv_model_forward f41 fixed bb heads st x h w st' :
   bb_dec bb = tv_decoder C4 k interp e L -> bb_rate bb = 2 # 1 -> bb_output_stride bb = pow2 b ->
   tv_heads_ok heads ->
   backbone_forward bb st x = (Some (map (tv_out C4 h w) (seq 0 L)), st') ->
-  exists m, build_model fixed (Some bb) heads = Some m /\
+  exists m, build_model_fx f41 fixed (Some bb) heads = Some m /\
     fst (model_forward m st x) = Some (contracted heads (h * pow2 (e + 3)) (w * pow2 (e + 3))).
 Proof.
-  intros Hd Hr Hos Hheads Hfw. unfold tv_heads_ok in Hheads. unfold build_model.
+  intros Hd Hr Hos Hheads Hfw. unfold tv_heads_ok in Hheads. unfold build_model_fx.
   assert (Emin : Z.min (min_list (bb_output_stride bb) (map h_os heads)) (bb_output_stride bb) = pow2 b).
   { rewrite Hos, min_list_ge. lia.
     apply Forall_map. eapply Forall_impl; [|exact Hheads].
@@ -1060,14 +1237,16 @@ Proof.
   { intros hd Hin. rewrite Forall_forall in Hheads. destruct (Hheads hd Hin) as (t & Ht & E).
     exists t. repeat split; try lia; auto. unfold tof. rewrite E, pow2_log2. lia. }
   rewrite (all_some_map _ (fun hd => tv_ch C4 (e + 2 - tof hd))).
-  2:{ intros hd Hin. destruct (Etof hd Hin) as (t & Ht & E & Et). rewrite Et. apply tv_head_in; auto. }
+  2:{ intros hd Hin. destruct (Etof hd Hin) as (t & Ht & E & Et). rewrite Et.
+      unfold head_in_channels_fx. rewrite (at_top_tv f41 bb hd t Hd ltac:(lia) E). apply tv_head_in; auto. }
   eexists. split. reflexivity.
-  unfold model_forward. cbn [m_backbone m_heads m_head_layers].
+  unfold model_forward. cbn [m_backbone m_heads m_head_layers m_f41].
   rewrite Hfw. cbn [fst].
   rewrite combine_map_r, map_map. cbn [fst snd].
   rewrite combine_map_r, map_map. cbn [fst snd].
   unfold contracted. apply all_some_map.
-  intros hd Hin. destruct (Etof hd Hin) as (t & Ht & Eos & Et). rewrite Et, Eos, Hd.
+  intros hd Hin. destruct (Etof hd Hin) as (t & Ht & Eos & Et).
+  rewrite (at_top_tv f41 bb hd t Hd ltac:(lia) Eos). rewrite Et, Eos, Hd.
   cbn [tv_decoder d_strides]. rewrite index_of_tv by (unfold L; lia).
   rewrite nth_error_map, nth_error_seq by (unfold L; lia). cbn [option_map Nat.add].
   unfold tv_out, make_head. cbn [run_layers run_layer]. rewrite Z.eqb_refl. cbn [fst].
@@ -1171,9 +1350,9 @@ Proof.
   destruct t as [|[|[|]]]; try lia; cbn [nth_error]; compute_pows; apply some_shape_eq; lia.
 Qed.
 
-Theorem convnext_model_forward fixed c C4 ds e b heads st h w :
+Theorem convnext_model_forward f41 fixed c C4 ds e b heads st h w :
   convnext_valid c C4 ds e b -> tv_heads_ok e b heads -> 0 < h -> 0 < w ->
-  exists m, build_model fixed (build_convnext c) heads = Some m /\
+  exists m, build_model_fx f41 fixed (build_convnext c) heads = Some m /\
     fst (model_forward m st (c_in_channels c, pow2 e * (2 * (2 * (2 * h))), pow2 e * (2 * (2 * (2 * w)))))
     = Some (contracted heads (h * pow2 (e + 3)) (w * pow2 (e + 3))).
 Proof.
@@ -1274,9 +1453,9 @@ Proof.
   destruct t as [|[|[|]]]; try lia; cbn [nth_error]; compute_pows; apply some_shape_eq; lia.
 Qed.
 
-Theorem swint_model_forward fixed c C4 ds nhs e b heads st h w :
+Theorem swint_model_forward f41 fixed c C4 ds nhs e b heads st h w :
   swint_valid c C4 ds nhs e b -> tv_heads_ok e b heads -> 0 < h -> 0 < w ->
-  exists m, build_model fixed (build_swint c) heads = Some m /\
+  exists m, build_model_fx f41 fixed (build_swint c) heads = Some m /\
     fst (model_forward m st (s_in_channels c, pow2 e * (2 * (2 * (2 * h))), pow2 e * (2 * (2 * (2 * w)))))
     = Some (contracted heads (h * pow2 (e + 3)) (w * pow2 (e + 3))).
 Proof.
@@ -1337,7 +1516,7 @@ Lemma head_in_false_some u s d b hd t : (b <= t < s + d)%nat -> h_os hd = pow2 t
   exists x, head_in_channels false (unet_backbone u s d b) (u_output_stride u) hd = Some x.
 Proof.
   intros Ht E Hos. unfold head_in_channels.
-  cbn [unet_backbone bb_dec unet_decoder d_strides]. rewrite E, Hos.
+  cbn [unet_backbone unet_backbone_fx unet_decoder_fx unet_xin fx17 nofix andb bb_dec unet_decoder d_strides]; rewrite ?unet_xin_nofix. rewrite E, Hos.
   destruct (pow2 t =? pow2 b). eauto.
   rewrite (index_of_stride (s + d) b b), (index_of_stride (s + d) b t) by lia. eauto.
 Qed.
@@ -1346,7 +1525,7 @@ Lemma unet_min_os u s d b heads : u_output_stride u = pow2 b -> heads_ok heads b
   Z.min (min_list (bb_output_stride (unet_backbone u s d b)) (map h_os heads))
         (bb_output_stride (unet_backbone u s d b)) = u_output_stride u.
 Proof.
-  intros Hos Hheads. cbn [unet_backbone bb_output_stride]. rewrite min_list_ge. lia.
+  intros Hos Hheads. cbn [unet_backbone unet_backbone_fx unet_decoder_fx unet_xin fx17 nofix andb bb_output_stride]; rewrite ?unet_xin_nofix. rewrite min_list_ge. lia.
   apply Forall_map. eapply Forall_impl; [|exact Hheads].
   intros hd (t & Ht & E). cbn beta. rewrite E, Hos.
   destruct (Nat.eq_dec b t) as [->|]. lia. assert (pow2 b < pow2 t) by (apply pow2_lt; lia). lia.
@@ -1358,7 +1537,7 @@ Lemma selector_F43_false_sized u s d b heads :
 Proof.
   intros Hv Hcpb Hmid Hheads Hsel hd t Hin Eos.
   pose proof Hv as (Hms & Hos & Hb & Hstem).
-  unfold selector_F43 in Hsel. cbn [build_backbone] in Hsel.
+  unfold selector_F43 in Hsel. change (build_backbone (CfgUNet u)) with (build_unet u) in Hsel.
   rewrite (build_unet_spec u s d b Hv Hcpb Hmid) in Hsel.
   rewrite (unet_min_os u s d b heads Hos Hheads) in Hsel.
   pose proof (existsb_false _ _ Hsel hd Hin) as Hhd. cbn beta in Hhd.
@@ -1491,11 +1670,11 @@ Proof.
   - exists 2%nat. split. lia. reflexivity.
 Qed.
 
-Theorem convnext_contract_partial fixed u heads H W :
+Theorem convnext_contract_partial f41 fixed u heads H W :
   valid_config (CfgConvNext u) heads = true -> in_domain (CfgConvNext u) H W = true ->
   selector_F20 (CfgConvNext u) heads = false -> selector_F41 (CfgConvNext u) heads = false ->
   selector_F42 (CfgConvNext u) H W = false ->
-  exists m, build_model fixed (build_convnext u) heads = Some m /\
+  exists m, build_model_fx f41 fixed (build_convnext u) heads = Some m /\
     forall st, fst (model_forward m st (c_in_channels u, H, W)) = Some (contracted heads H W).
 Proof.
   intros Hval Hdom H20 H41 H42.
@@ -1533,18 +1712,18 @@ Proof.
   { unfold convnext_valid. rewrite Ea. split. exact Earch.
     split. exact Alen. split. exact Hker. split. exact Es. split. exact He.
     split. exact Hrate. split. exact Hos. exact Hbe. }
-  destruct (convnext_model_forward fixed u C4 ds e b heads fresh h w Hv Hheads Hh Hw) as (m & Em & _).
+  destruct (convnext_model_forward f41 fixed u C4 ds e b heads fresh h w Hv Hheads Hh Hw) as (m & Em & _).
   exists m. split. exact Em. intros st.
-  destruct (convnext_model_forward fixed u C4 ds e b heads st h w Hv Hheads Hh Hw) as (m' & Em' & Hf).
+  destruct (convnext_model_forward f41 fixed u C4 ds e b heads st h w Hv Hheads Hh Hw) as (m' & Em' & Hf).
   rewrite Em in Em'. injection Em' as <-.
   rewrite <- EH, <- EW in Hf. rewrite <- EH2, <- EW2 in Hf. exact Hf.
 Qed.
 
-Theorem swint_contract_partial fixed u heads H W :
+Theorem swint_contract_partial f41 fixed u heads H W :
   valid_config (CfgSwinT u) heads = true -> in_domain (CfgSwinT u) H W = true ->
   selector_F20 (CfgSwinT u) heads = false -> selector_F41 (CfgSwinT u) heads = false ->
   selector_F42 (CfgSwinT u) H W = false ->
-  exists m, build_model fixed (build_swint u) heads = Some m /\
+  exists m, build_model_fx f41 fixed (build_swint u) heads = Some m /\
     forall st, fst (model_forward m st (s_in_channels u, H, W)) = Some (contracted heads H W).
 Proof.
   intros Hval Hdom H20 H41 H42.
@@ -1584,9 +1763,9 @@ Proof.
     split. exact M0. split. exact M1. split. exact M2. split. exact M3.
     split. exact Hker. split. exact Es. split. exact He.
     split. exact Hrate. split. exact Hos. exact Hbe. }
-  destruct (swint_model_forward fixed u C4 ds [n0; n1; n2; n3] e b heads fresh h w Hv Hheads Hh Hw) as (m & Em & _).
+  destruct (swint_model_forward f41 fixed u C4 ds [n0; n1; n2; n3] e b heads fresh h w Hv Hheads Hh Hw) as (m & Em & _).
   exists m. split. exact Em. intros st.
-  destruct (swint_model_forward fixed u C4 ds [n0; n1; n2; n3] e b heads st h w Hv Hheads Hh Hw) as (m' & Em' & Hf).
+  destruct (swint_model_forward f41 fixed u C4 ds [n0; n1; n2; n3] e b heads st h w Hv Hheads Hh Hw) as (m' & Em' & Hf).
   rewrite Em in Em'. injection Em' as <-.
   rewrite <- EH, <- EW in Hf. rewrite <- EH2, <- EW2 in Hf. exact Hf.
 Qed.
@@ -1628,7 +1807,7 @@ Lemma head_in_false_arith u s d b hd t : (b <= t < s + d)%nat -> h_os hd = pow2 
   = Some (head_arith (u_filters u) (u_rate u) (s + d) b t).
 Proof.
   intros Ht E Hos. unfold head_in_channels, head_arith, max_channels.
-  cbn [unet_backbone bb_dec unet_decoder d_strides d_stack d_x_in bb_rate].
+  cbn [unet_backbone unet_backbone_fx unet_decoder_fx unet_xin fx17 nofix andb bb_dec unet_decoder d_strides d_stack d_x_in bb_rate]; rewrite ?unet_xin_nofix.
   rewrite map_length, seq_length, E, Hos.
   destruct (Z.eqb_spec (pow2 t) (pow2 b)) as [Et|Et].
   - apply pow2_inj in Et. subst t. rewrite Nat.eqb_refl. reflexivity.
@@ -1722,7 +1901,7 @@ Proof.
   assert (Hheads : heads_ok heads b (s + d)).
   { rewrite <- En. apply Forall_forall. auto. }
   (* selector_F43 is false: both sizings agree on every head *)
-  unfold selector_F43. cbn [build_backbone].
+  unfold selector_F43. change (build_backbone (CfgUNet u)) with (build_unet u).
   rewrite (build_unet_spec u s d b Hv H18 H17), (unet_min_os u s d b heads Hos Hheads).
   apply not_true_is_false. intros Hex. apply existsb_exists in Hex. destruct Hex as (hd & Hin & Hhd).
   destruct (Hh hd Hin) as (t & Ht & Et).
@@ -1942,14 +2121,14 @@ Definition w_u : unet_cfg :=
      u_output_stride := 2 |}.
 
 Lemma stateful_outside_domain :
-  r_calls (run (CEncoder w_u [(33, 48); (33, 48)]))
+  r_calls (run (CEncoder nofix w_u [(33, 48); (33, 48)]))
   = [Some [(64, 3, 3); (32, 5, 6); (16, 9, 12); (8, 17, 24); (4, 33, 48)];
      Some [(64, 2, 3); (32, 4, 6); (16, 8, 12); (8, 16, 24); (4, 33, 48)]].
 Proof. vm_compute. reflexivity. Qed.
 
 (* ... and inside the domain it does not: same encoder, a multiple of 16 *)
 Lemma stateless_inside_domain :
-  r_calls (run (CEncoder w_u [(32, 48); (33, 48); (32, 48)]))
+  r_calls (run (CEncoder nofix w_u [(32, 48); (33, 48); (32, 48)]))
   = [Some [(64, 2, 3); (32, 4, 6); (16, 8, 12); (8, 16, 24); (4, 32, 48)];
      Some [(64, 2, 3); (32, 4, 6); (16, 8, 12); (8, 16, 24); (4, 33, 48)];
      Some [(64, 2, 3); (32, 4, 6); (16, 8, 12); (8, 16, 24); (4, 32, 48)]].
@@ -1997,3 +2176,216 @@ Proof.
   destruct Hv as (Hms & Hos & Hb & Hstem).
   apply heads_sized_fixed; auto.
 Qed.
+
+(* ======================================================================
+   The proposed repairs (fx17, fx18, fx41, fx42) as flags: with the head rule
+   of the current tree (fixed = true) the contract holds for EVERY value of the
+   flags, each flag removing exactly its selector from the hypotheses. *)
+
+Lemma heads_sized_fixed_fx fx c s d b heads :
+  Forall (fun hd => exists t, (b <= t)%nat /\ h_os hd = pow2 t) heads ->
+  heads_sized_fx true fx c s d b heads.
+Proof.
+  intros Hheads hd t Hin Eos Ht. rewrite Forall_forall in Hheads.
+  destruct (Hheads hd Hin) as (t' & Hbt & E). rewrite E in Eos. apply pow2_inj in Eos. subst t'.
+  unfold head_in_channels. cbn [unet_backbone_fx unet_decoder_fx bb_dec d_strides d_stack]. rewrite E.
+  rewrite index_of_stride by lia.
+  rewrite nth_error_map, nth_error_seq by lia. cbn [option_map Nat.add].
+  unfold dec_for_block, simple_upsampling_block. cbn [ub_out]. rewrite trunc_inject_Z.
+  unfold unet_F. do 2 f_equal. lia.
+Qed.
+
+Theorem unet_contract_fx fx u heads H W :
+  valid_config (CfgUNet u) heads = true -> in_domain (CfgUNet u) H W = true ->
+  (fx17 fx = true \/ selector_F17 (CfgUNet u) = false) ->
+  (fx18 fx = true \/ selector_F18 (CfgUNet u) = false) ->
+  (fx41 fx = true \/ selector_F41 (CfgUNet u) heads = false) ->
+  exists m, build_model_fx (fx41 fx) true (build_unet_fx fx u) heads = Some m /\
+    forall st, fst (model_forward m st (u_in_channels u, H, W)) = Some (contracted heads H W).
+Proof.
+  intros Hval Hdom H17 H18 H41.
+  unfold valid_config in Hval. cbn [cfg_output_stride cfg_max_stride] in Hval.
+  apply andb_true_iff in Hval. destruct Hval as [Hval Hu].
+  apply andb_true_iff in Hval. destruct Hval as [Hval Hvh].
+  apply andb_true_iff in Hval. destruct Hval as [Hpos Hpms].
+  apply andb_true_iff in Hu. destruct Hu as [Hu Hstem].
+  apply andb_true_iff in Hu. destruct Hu as [Hu Hrate].
+  apply andb_true_iff in Hu. destruct Hu as [Hu Hfilt].
+  apply andb_true_iff in Hu. destruct Hu as [Hms2 Hcpb1].
+  apply Z.leb_le in Hms2. apply Z.leb_le in Hcpb1.
+  destruct (is_pow2_spec _ Hpos) as (b & Hos). destruct (is_pow2_spec _ Hpms) as (n & Hms).
+  assert (Hn : (0 < n)%nat).
+  { destruct n; [rewrite Hms in Hms2; cbn in Hms2; lia | lia]. }
+  assert (Hs : exists s, (s <= n)%nat /\ ((s = 0%nat /\ u_stem_stride u = None) \/ u_stem_stride u = Some (pow2 s))).
+  { destruct (u_stem_stride u) as [sv|] eqn:Es.
+    - apply andb_true_iff in Hstem. destruct Hstem as [Hp Hle]. destruct (is_pow2_spec _ Hp) as (s & ->).
+      apply Z.leb_le in Hle. rewrite Hms in Hle. exists s. split. apply pow2_le_inv; auto. right; reflexivity.
+    - exists 0%nat. split. lia. left; auto. }
+  destruct Hs as (s & Hsn & Hstem').
+  set (d := (n - s)%nat). assert (En : n = (s + d)%nat) by (unfold d; lia).
+  (* the flags against the selectors *)
+  assert (Hcpb : cpb_ok (fx18 fx) (u_convs_per_block u)).
+  { unfold cpb_ok. destruct H18 as [-> | H18].
+    - destruct (Z.eq_dec (u_convs_per_block u) 1); [right; auto | left; lia].
+    - unfold selector_F18 in H18. apply Z.ltb_ge in H18. left; auto. }
+  assert (Hfeed : feeds fx u).
+  { unfold feeds. destruct H17 as [-> | H17]; [right; auto|].
+    unfold selector_F17 in H17. apply negb_false_iff in H17. left; auto. }
+  unfold valid_heads in Hvh. apply andb_true_iff in Hvh. destruct Hvh as [Hne Hall].
+  rewrite forallb_forall in Hall.
+  assert (Hh : forall hd, In hd heads ->
+            exists t, (b <= t)%nat /\ ((t < n)%nat \/ (t = n /\ fx41 fx = true)) /\ h_os hd = pow2 t).
+  { intros hd Hin. specialize (Hall hd Hin).
+    apply andb_true_iff in Hall. destruct Hall as [Hall Hle2].
+    apply andb_true_iff in Hall. destruct Hall as [Hp2 H0].
+    destruct (is_pow2_spec _ Hp2) as (t & Et). exists t.
+    cbn [cfg_output_stride] in H0. apply Z.leb_le in H0. rewrite Hos, Et in H0.
+    cbn [cfg_max_stride effective_max_stride] in Hle2. rewrite Z.max_id in Hle2.
+    apply Z.leb_le in Hle2. rewrite Hms, Et in Hle2.
+    assert (Htn : (t <= n)%nat) by (apply pow2_le_inv; auto).
+    split. apply pow2_le_inv; auto. split; auto.
+    destruct H41 as [H41 | H41].
+    - destruct (Nat.eq_dec t n); [right; auto | left; lia].
+    - left. unfold selector_F41 in H41. cbn [effective_max_stride] in H41.
+      pose proof (existsb_false _ _ H41 hd Hin) as Hlt. cbn beta in Hlt. apply Z.leb_gt in Hlt.
+      rewrite Hms, Et in Hlt. apply pow2_lt_inv; auto. }
+  assert (Hbn : (b <= n)%nat).
+  { destruct heads as [|hd0 ?]; [discriminate Hne|].
+    destruct (Hh hd0 (or_introl eq_refl)) as (t & Ht & Ht2 & _). lia. }
+  assert (Hv : unet_valid_le u s d b).
+  { unfold unet_valid_le. rewrite <- En. repeat split; auto. }
+  unfold in_domain in Hdom. cbn [cfg_max_stride] in Hdom.
+  repeat (apply andb_true_iff in Hdom; destruct Hdom as [Hdom ?]).
+  apply Z.ltb_lt in Hdom. apply Z.ltb_lt in H2. apply Z.eqb_eq in H1. apply Z.eqb_eq in H0.
+  rewrite Hms in H0, H1.
+  destruct (mod_pow2_mult H n Hdom H1) as (h & Hh' & ->).
+  destruct (mod_pow2_mult W n H2 H0) as (w & Hw & ->).
+  assert (Hheads : heads_ok_fx (fx41 fx) heads b (s + d)).
+  { rewrite <- En. apply Forall_forall. exact Hh. }
+  assert (Hsized : heads_sized_fx true fx u s d b heads).
+  { apply heads_sized_fixed_fx. apply Forall_forall. intros hd Hin.
+    destruct (Hh hd Hin) as (t & Ht & _ & E). exists t; auto. }
+  destruct (unet_model_forward_fx true fx u s d b heads fresh h w Hv Hcpb Hfeed Hheads Hsized Hh' Hw) as (m & Em & _).
+  exists m. split. exact Em.
+  intros st.
+  destruct (unet_model_forward_fx true fx u s d b heads st h w Hv Hcpb Hfeed Hheads Hsized Hh' Hw) as (m' & Em' & Hf).
+  rewrite Em in Em'. injection Em' as <-. rewrite En. exact Hf.
+Qed.
+
+(* fx42: the domain reported by the repaired wrappers lies inside the configured one
+   and outside selector F42 *)
+Lemma in_domain_fx_off c H W : in_domain_fx false c H W = in_domain c H W.
+Proof. reflexivity. Qed.
+
+Lemma in_domain_fx_on c heads H W : valid_config c heads = true ->
+  in_domain_fx true c H W = true -> in_domain c H W = true /\ selector_F42 c H W = false.
+Proof.
+  intros Hval Hdom. destruct (eff_pow2 c heads Hval) as (k & Ek).
+  assert (Hp : exists n, cfg_max_stride c = pow2 n).
+  { unfold valid_config in Hval.
+    apply andb_true_iff in Hval. destruct Hval as [Hval _].
+    apply andb_true_iff in Hval. destruct Hval as [Hval _].
+    apply andb_true_iff in Hval. destruct Hval as [_ Hpms]. apply is_pow2_spec; auto. }
+  destruct Hp as (n & En).
+  unfold in_domain_fx, model_max_stride in Hdom. rewrite Ek, En in Hdom.
+  repeat (apply andb_true_iff in Hdom; destruct Hdom as [Hdom ?]).
+  apply Z.eqb_eq in H0, H1.
+  assert (Emax : Z.max (pow2 n) (pow2 k) = pow2 (Nat.max n k)).
+  { destruct (Nat.le_gt_cases n k) as [Hle|Hgt].
+    - rewrite Nat.max_r by lia. destruct (Nat.eq_dec n k) as [->|]; [lia|].
+      assert (pow2 n < pow2 k) by (apply pow2_lt; lia). lia.
+    - rewrite Nat.max_l by lia. assert (pow2 k < pow2 n) by (apply pow2_lt; lia). lia. }
+  rewrite Emax in H0, H1.
+  pose proof (mod_pow2_weaken H n (Nat.max n k) (Nat.le_max_l n k) H1) as A1.
+  pose proof (mod_pow2_weaken W n (Nat.max n k) (Nat.le_max_l n k) H0) as A2.
+  pose proof (mod_pow2_weaken H k (Nat.max n k) (Nat.le_max_r n k) H1) as B1.
+  pose proof (mod_pow2_weaken W k (Nat.max n k) (Nat.le_max_r n k) H0) as B2.
+  split.
+  - unfold in_domain. rewrite En, Hdom, H2, A1, A2. reflexivity.
+  - unfold selector_F42. destruct (cfg_patch_stride c); [|reflexivity].
+    rewrite Ek, B1, B2. cbn. apply andb_false_r.
+Qed.
+
+(* THE STATEMENT WITH THE REPAIRS AS FLAGS (head rule of the current tree).
+   PARTIAL in two respects, both for ConvNeXt / Swin-T only: selector F41 stays whatever
+   fx41 is, and selector F20 stays although the head rule is repaired -- for those two
+   regions the repaired behaviour is established on the witnesses / the preset grid by
+   vm_compute (tv_top_head_fx, repaired_witnesses), not by an unbounded proof. *)
+Definition residual_selector (fx : fixes) (c : config) (heads : list head) (H W : Z) : bool :=
+  (negb (fx17 fx) && selector_F17 c) || (negb (fx18 fx) && selector_F18 c) ||
+  ((match c with CfgUNet _ => negb (fx41 fx) | _ => true end) && selector_F41 c heads) ||
+  (negb (fx42 fx) && selector_F42 c H W) || selector_F20 c heads.
+
+Lemma flag_or (f s : bool) : negb f && s = false -> f = true \/ s = false.
+Proof. destruct f, s; cbn; auto. Qed.
+
+Theorem contract_fx_partial fx c heads H W :
+  valid_config c heads = true -> in_domain_fx (fx42 fx) c H W = true ->
+  residual_selector fx c heads H W = false ->
+  exists m, build_model_fx (fx41 fx) true (build_backbone_fx fx c) heads = Some m /\
+    forall st, fst (model_forward m st (cfg_in_channels c, H, W)) = Some (contracted heads H W).
+Proof.
+  intros Hval Hdom Hsel. unfold residual_selector in Hsel.
+  repeat (apply orb_false_iff in Hsel; destruct Hsel as [Hsel ?]).
+  assert (Hd : in_domain c H W = true /\ selector_F42 c H W = false).
+  { destruct (fx42 fx) eqn:E42.
+    - eapply in_domain_fx_on; eauto.
+    - split. exact Hdom. cbn in H1. exact H1. }
+  destruct Hd as [Hd H42].
+  destruct c as [u|u|u]; cbn [build_backbone_fx cfg_in_channels].
+  - apply unet_contract_fx; auto using flag_or.
+  - apply convnext_contract_partial; auto.
+  - apply swint_contract_partial; auto.
+Qed.
+
+(* call sequences on one instance of the repaired model: every in-domain call returns
+   what a fresh instance returns, whatever was called before *)
+Theorem call_sequences_fx fx c heads m (inputs : list (Z * Z)) :
+  valid_config c heads = true ->
+  build_model_fx (fx41 fx) true (build_backbone_fx fx c) heads = Some m ->
+  Forall (fun hw => in_domain_fx (fx42 fx) c (fst hw) (snd hw) = true /\
+                    residual_selector fx c heads (fst hw) (snd hw) = false) inputs ->
+  forall st,
+    model_calls m st (map (fun hw => (cfg_in_channels c, fst hw, snd hw)) inputs)
+    = map (fun hw => Some (contracted heads (fst hw) (snd hw))) inputs.
+Proof.
+  intros Hval Hm Hin st.
+  rewrite (model_calls_stateless m (fun x => contracted heads (snd (fst x)) (snd x))).
+  - rewrite map_map. reflexivity.
+  - intros x Hx st'. apply in_map_iff in Hx. destruct Hx as ((H & W) & <- & Hhw).
+    rewrite Forall_forall in Hin. destruct (Hin (H, W) Hhw) as [Hd Hs]. cbn [fst snd] in *.
+    destruct (contract_fx_partial fx c heads H W Hval Hd Hs) as (m' & Em' & Hf).
+    rewrite Hm in Em'. injection Em' as <-. apply Hf.
+Qed.
+
+(* the four witnesses: refuted as the tree is (refuted_F17 ... refuted_F42), met with the repair *)
+Definition only17 := {| fx17 := true; fx18 := false; fx41 := false; fx42 := false |}.
+Definition only18 := {| fx17 := false; fx18 := true; fx41 := false; fx42 := false |}.
+Definition only41 := {| fx17 := false; fx18 := false; fx41 := true; fx42 := false |}.
+Definition only42 := {| fx17 := false; fx18 := false; fx41 := false; fx42 := true |}.
+
+Lemma repaired_witnesses_fx :
+  meets_contract_fx true only17 (w_unet 16 (2 # 1) 16 2 false 2) (get_head MSingle 3 2 2 2) 32 48 = true /\
+  meets_contract_fx true only18 (w_unet 16 (2 # 1) 16 2 true 1) (get_head MSingle 3 2 2 2) 32 48 = true /\
+  meets_contract_fx true only41 (w_unet 16 (2 # 1) 16 16 true 2) (get_head MCentroid 3 2 16 16) 32 48 = true /\
+  in_domain_fx true (w_swint_tiny 4 4 16) 48 48 = false /\
+  meets_contract_fx true allfix (w_unet 16 (3 # 2) 16 4 false 1) (get_head MBottomUp 3 2 16 4) 32 48 = true.
+Proof. repeat split; vm_compute; reflexivity. Qed.
+
+(* FINITE grid (the bound is the list): a head on the encoder output of the shipped
+   ConvNeXt / Swin-T presets, both stem strides, with fx41 *)
+Definition tv_presets : list config :=
+  flat_map (fun sps =>
+    map (fun mt => CfgConvNext {| c_model_type := mt; c_arch := None; c_in_channels := 1; c_kernel := 3;
+                                  c_stem_kernel := 4; c_stem_stride := sps; c_rate := 2 # 1; c_up_interp := true;
+                                  c_output_stride := sps; c_max_stride := 8 * sps |}) [0; 1; 2; 3]%nat ++
+    map (fun mt => CfgSwinT {| s_model_type := mt; s_arch := None; s_in_channels := 1; s_kernel := 3;
+                               s_patch := 4; s_stem_stride := sps; s_rate := 2 # 1; s_up_interp := false;
+                               s_output_stride := sps; s_max_stride := 8 * sps |}) [0; 1; 2]%nat) [2; 4].
+
+Lemma tv_top_head_fx :
+  forallb (fun c =>
+    let hs := get_head MBottomUp 3 2 (cfg_output_stride c) (effective_max_stride c) in
+    valid_config c hs && selector_F41 c hs && negb (meets_contract_fx true nofix c hs 64 96) &&
+    meets_contract_fx true only41 c hs 64 96) tv_presets = true.
+Proof. vm_compute. reflexivity. Qed.
